@@ -137,6 +137,10 @@ Definition unmarshal_logout_request (root : node) : res logout_request :=
   do v <- unmarshal_element xml_schema "LogoutRequest" root; Ok (to_logout_request v).
 Definition unmarshal_base_response (root : node) : res base_response :=
   do v <- unmarshal_element xml_schema "UnverifiedBaseResponse" root; Ok (to_base_response v).
+(* xmlUnmarshalElement as it was before the repair of F13 (etree's default write settings, Schema.view_original): only for
+   the witness of that finding *)
+Definition unmarshal_response_original (root : node) : res response :=
+  do v <- unmarshal_element_original xml_schema "Response" root; Ok (to_response v).
 (* the unverified pre-decoders: the struct decoder on the element read DIRECTLY from the received bytes (Schema.view_direct) *)
 Definition unmarshal_base_response_direct (root : node) : res base_response :=
   do v <- unmarshal_element_direct xml_schema "UnverifiedBaseResponse" root; Ok (to_base_response v).
